@@ -1,0 +1,10 @@
+//go:build verif
+
+// Verification hook for property C15 (add-only, compiled only with -tags verif):
+// tells the correspondence harness which regexp engine newRX selects for a pattern.
+
+package operators
+
+// VerifC15MatchesArbitraryBytes reports whether newRX would hand the (already prefixed)
+// expression to the binary regexp matcher.
+func VerifC15MatchesArbitraryBytes(expr string) bool { return matchesArbitraryBytes(expr) }
